@@ -383,6 +383,91 @@ func PurlFieldSubstitutions() []Subst {
 	return out
 }
 
+// QualifierFields returns the exported top-level string fields of the package's metadata that
+// feed a PURL qualifier: blanking the field alone removes qualifier keys from what ToPURL
+// returns and changes nothing else of the PURL (optional data such as Maven classifier/type,
+// architecture, distro, epoch, source name).
+func QualifierFields(it *Item) []string {
+	v := reflect.ValueOf(it.Pkg.Metadata)
+	if v.Kind() != reflect.Pointer || v.IsNil() || v.Elem().Kind() != reflect.Struct {
+		return nil
+	}
+	base := safePURL(it.Ex.E, it.Pkg)
+	if base == nil || len(base.Qualifiers) == 0 {
+		return nil
+	}
+	var out []string
+	t := v.Elem().Type()
+	for i := 0; i < t.NumField(); i++ {
+		f := v.Elem().Field(i)
+		if f.Kind() != reflect.String || !t.Field(i).IsExported() || f.String() == "" {
+			continue
+		}
+		x := ApplyBlank(it, []string{t.Field(i).Name})
+		if x == nil {
+			continue
+		}
+		u := safePURL(x.Ex.E, x.Pkg)
+		if u == nil || u.Type != base.Type || u.Namespace != base.Namespace || u.Name != base.Name || u.Version != base.Version || u.Subpath != base.Subpath {
+			continue
+		}
+		if len(u.Qualifiers) < len(base.Qualifiers) {
+			out = append(out, t.Field(i).Name)
+		}
+	}
+	return out
+}
+
+func safePURL(e filesystem.Extractor, p *extractor.Package) (u *purl.PackageURL) {
+	defer func() {
+		if recover() != nil {
+			u = nil
+		}
+	}()
+	return e.ToPURL(p)
+}
+
+// BlankLabel is the substitution label of ApplyBlank.
+func BlankLabel(fields []string) string { return "blank:" + strings.Join(fields, "+") }
+
+// ApplyBlank returns a copy of base whose metadata has the named exported string fields emptied.
+func ApplyBlank(base *Item, fields []string) *Item {
+	v := reflect.ValueOf(base.Pkg.Metadata)
+	if v.Kind() != reflect.Pointer || v.IsNil() || v.Elem().Kind() != reflect.Struct {
+		return nil
+	}
+	cp := reflect.New(v.Elem().Type())
+	cp.Elem().Set(v.Elem())
+	for _, n := range fields {
+		f := cp.Elem().FieldByName(n)
+		if !f.IsValid() || f.Kind() != reflect.String || !f.CanSet() {
+			return nil
+		}
+		f.SetString("")
+	}
+	p := *base.Pkg
+	p.Locations = append([]string(nil), base.Pkg.Locations...)
+	p.Metadata = cp.Interface()
+	return &Item{Ex: base.Ex, Fixture: base.Fixture, Env: base.Env, Required: base.Required, Index: base.Index, Pkg: &p, Synth: BlankLabel(fields), Base: base}
+}
+
+// BlankVariants: every subset of one and of two qualifier-feeding fields blanked.
+func BlankVariants(it *Item) []*Item {
+	fs := QualifierFields(it)
+	var out []*Item
+	for i := range fs {
+		if x := ApplyBlank(it, fs[i:i+1]); x != nil {
+			out = append(out, x)
+		}
+		for j := i + 1; j < len(fs); j++ {
+			if x := ApplyBlank(it, []string{fs[i], fs[j]}); x != nil {
+				out = append(out, x)
+			}
+		}
+	}
+	return out
+}
+
 var purlPtrType = reflect.TypeOf((*purl.PackageURL)(nil))
 
 // editPurlFields edits (copies of) the PURLs held by the metadata copy m; reports whether any changed.
